@@ -14,7 +14,7 @@ for cap, tier in ((1, 'quick'), (2, 'quick'), (3, 'quick'), (4, 'quick'), (5, 't
         for entry in ('proof_init', 'proof_emplace', 'proof_emplace_full', 'proof_remove', 'proof_clear', 'proof_access', 'proof_copy') + (('proof_emplace_plain',) if pl else ()):
             props = ['C19'] + (['C11'] if entry != 'proof_emplace_full' else []) + (['C14'] if entry == 'proof_emplace_plain' else []) + (['C10'] if entry == 'proof_copy' else [])
             job(id='C19.pool.cap%d%s.%s' % (cap, '.int' if pl else '', entry[6:]), tu='tier_a/tasklist.cpp', defs=defs, entry=entry,
-                props=props, tier=t, unwind=max(cap + 2, 6), unwindset={'verif_havoc.0': 4096}, objbits=10, carriers=TL_CARRIERS,
+                props=props, tier=t, unwind=max(cap + 2, 6), unwindset={'verif_havoc.0': 4096}, objbits=10, carriers=TL_CARRIERS, timeout=600 if cap < 5 else 2400,
                 case_key='TaskListT<%s,%d>' % ('int' if pl else 'void', cap))
 
 # code contracts on the real functions, enforced / used modularly by goto-instrument --dfcc (DESIGN 11.10)
